@@ -54,6 +54,19 @@ CLAIMED = {
              'cases are covered by the search, not by the order theorem.',
         technique='Lean 4 proof (order theory of compare, lexicographic lifting, sorted-permutation uniqueness) + regenerated tables + differential run',
         ref='8/C11'),
+    'C10': dict(
+        text='Lean 4 theorems on the model of Rules.Merge (nested loop with in-place deletion and mutation, nil entries, comment '
+             'special case): for any notion of meaning and any domain on which the two per-rule contracts hold, merging preserves '
+             'the meaning of every list (C10_merge_preserves_meaning, by induction over the inner loop and the fuel); merge() on '
+             'permission lists is exactly a union for every kind and weight table. Known classes where the unchanged code breaks '
+             'the property each have a kernel-evaluated witness on the model that is replayed on the real code. Rules.Merge, every '
+             'Rule.Merge and merge() are run against the model on near-duplicate lists; the real output is judged by an independent '
+             'fact semantics (empty access = all, mount options conjunctive), plus idempotence.',
+        note='Trusted: Lean kernel; the per-kind discharge of the merge/duplicate contracts is validated by the search on real '
+             'code, not yet proved per kind (DESIGN.md); hand-written merge schema tied by the differential run; requirement tables, '
+             'alphabets and the set of kinds that actually have sort weights are regenerated from the running code.',
+        technique='Lean 4 proof (generic meaning preservation over the merge loop, union lemma) + kernel-evaluated counter-witnesses + differential run',
+        ref='8/C10'),
 }
 
 REASON_TODO = 'check not built yet in this round; no claim is made (see DESIGN.md section 13)'
